@@ -95,6 +95,7 @@ func cmdCheck(argv []string) {
 	solverKind := fs.String("solver", "z3-new", "primary solver")
 	workers := fs.Int("workers", 0, "parallel workers (default: cores)")
 	noReplay := fs.Bool("no-replay", false, "skip native replay (development)")
+	nWit := fs.Int("witnesses", -1, "path witnesses per harness instance validated against the native build (default: 1 quick, 3 thorough; 0 = off)")
 	only := fs.String("only", "", "run only harnesses containing this substring (development; evidence not written)")
 	// the property id may come before or after the flags
 	var ids, flags []string
@@ -181,6 +182,13 @@ func cmdCheck(argv []string) {
 			}
 			defer it.solver.close()
 			it.ownerFilter = id
+			it.maxWitnesses = *nWit
+			if *nWit < 0 {
+				it.maxWitnesses = 1
+				if *tier == "thorough" {
+					it.maxWitnesses = 3
+				}
+			}
 			for {
 				mu.Lock()
 				k := next
@@ -322,6 +330,26 @@ func cmdCheck(argv []string) {
 		}
 	}
 
+	// validation of the encoding against the native build: sampled path
+	// witnesses are run through the natively compiled harness
+	wv := witnessStats{}
+	if !*noReplay {
+		var wits []violation
+		for _, r := range results {
+			wits = append(wits, r.witnesses...)
+		}
+		if len(wits) > 0 {
+			if rp == nil {
+				rp = newReplayer(p)
+				defer rp.cleanup()
+			}
+			wv = rp.validateWitnesses(id, wits, *tier)
+			for _, m := range wv.divergent {
+				inconcl = append(inconcl, m)
+			}
+		}
+	}
+
 	wall := time.Since(t0).Seconds()
 	// evidence
 	if *only == "" {
@@ -373,6 +401,11 @@ func cmdCheck(argv []string) {
 			"inconclusive":        inconcl,
 			"replays":             replayed,
 			"replays_reproduced":  reproduced,
+			"witnesses_run":       wv.run,
+			"witnesses_agree":     wv.agree,
+			"witnesses_concurrent_disagree_noted": wv.notes,
+			"traces_validated_against_impl":       wv.agree,
+			"witness_rule":        "per harness instance the violation-free completed paths with the smallest trace hashes (1 quick / 3 thorough; paths with scheduling decisions excluded) are solved for a model; the natively compiled harness is run on those inputs and must end OK and pass the same cover labels as the symbolic path; a disagreement on a single-threaded path makes the run INCONCLUSIVE, on a multi-threaded path (native timing) it is retried and then only noted",
 			"known_findings":      knownLines,
 			"counterexamples_owned_by_other_properties": foreign,
 			"exhaustive":          false,
@@ -380,7 +413,7 @@ func cmdCheck(argv []string) {
 		if spec.level == "model_checking" {
 			cov["states"] = agg.paths
 			cov["transitions"] = int(agg.steps)
-			cov["traces_validated_against_impl"] = reproduced
+			cov["traces_validated_against_impl"] = reproduced + wv.agree
 		}
 		ev := map[string]interface{}{
 			"property_id": id,
@@ -402,6 +435,12 @@ func cmdCheck(argv []string) {
 
 	fmt.Printf("%s tier=%s: %d harness instances, %d paths, %d obligations (%d discharged), queries sat/unsat/unknown=%d/%d/%d, solver %.1fs, wall %.1fs\n",
 		id, *tier, len(jobs), agg.paths, agg.obligations, agg.discharged, agg.sat, agg.unsat, agg.unknown, agg.solverWall.Seconds(), wall)
+	if wv.run > 0 {
+		fmt.Printf("%s witnesses: %d sampled paths run natively, %d agree with the symbolic prediction, %d multi-threaded disagreements noted\n", id, wv.run, wv.agree, len(wv.notes))
+		for _, n := range wv.notes {
+			fmt.Println("NOTE:", n)
+		}
+	}
 	for _, l := range knownLines {
 		fmt.Println(l)
 	}
@@ -522,7 +561,7 @@ func (r *replayer) build(dir, pkgName string, race bool) (string, error) {
 		repl[path] = f
 	}
 	// inherit.go is replaced by an empty file: emulate deletion
-	testSrc := fmt.Sprintf("package %s\n\nimport (\n\t\"fmt\"\n\t\"testing\"\n)\n\nfunc TestVXReplay(t *testing.T) {\n\tfmt.Println(\"VXOUTCOME:\", VXRunReplay())\n}\n", pkgName)
+	testSrc := fmt.Sprintf("package %s\n\nimport (\n\t\"fmt\"\n\t\"testing\"\n)\n\nfunc TestVXReplay(t *testing.T) {\n\tfmt.Println(\"VXOUTCOME:\", VXRunReplay())\n\tfmt.Println(\"VXCOVERS:\", VXCovers())\n}\n", pkgName)
 	tf := filepath.Join(ovDir, "zz_vx_replay_test.go")
 	os.WriteFile(tf, []byte(testSrc), 0o644)
 	repl[filepath.Join(repoRoot, dir, "zz_vx_replay_test.go")] = tf
@@ -679,4 +718,154 @@ func cmdReplay(argv []string) {
 		os.Exit(1)
 	}
 	os.Exit(0)
+}
+
+
+// ---------------------------------------------------------------- witnesses
+
+type witnessStats struct {
+	run, agree int
+	divergent  []string // single-threaded disagreements: the run is inconclusive
+	notes      []string // multi-threaded disagreements (native timing): noted
+}
+
+// validateWitnesses runs every sampled path witness through the natively
+// compiled harness and compares outcome and cover labels with the prediction
+// of the symbolic execution.
+func (r *replayer) validateWitnesses(prop string, wits []violation, tier string) witnessStats {
+	var ws witnessStats
+	max := 60
+	if tier == "thorough" {
+		max = 400
+	}
+	if len(wits) > max {
+		sort.SliceStable(wits, func(a, b int) bool { return wits[a].hash < wits[b].hash })
+		// keep at least one per harness, then fill by hash
+		seen := map[string]bool{}
+		var keep, rest []violation
+		for _, w := range wits {
+			if !seen[w.Harness] {
+				seen[w.Harness] = true
+				keep = append(keep, w)
+			} else {
+				rest = append(rest, w)
+			}
+		}
+		for _, w := range rest {
+			if len(keep) >= max {
+				break
+			}
+			keep = append(keep, w)
+		}
+		wits = keep
+	}
+	dir := filepath.Join(r.scratch, "witnesses")
+	os.MkdirAll(dir, 0o755)
+	// build the binaries first (sequentially: the go tool parallelises itself)
+	for _, w := range wits {
+		if d, pn := r.pkgDirOfHarness(w.Harness); d != "" {
+			r.build(d, pn, false)
+		}
+	}
+	type res struct{ verdict, detail string }
+	out := make([]res, len(wits))
+	var wg sync.WaitGroup
+	sem := make(chan struct{}, 6)
+	for k := range wits {
+		wg.Add(1)
+		go func(k int) {
+			defer wg.Done()
+			sem <- struct{}{}
+			defer func() { <-sem }()
+			w := wits[k]
+			path := filepath.Join(dir, fmt.Sprintf("w%d.json", k))
+			b, _ := json.Marshal(w)
+			os.WriteFile(path, b, 0o644)
+			tries := 1
+			if w.Threads > 1 {
+				tries = 3
+			}
+			for t := 0; t < tries; t++ {
+				o, err := r.run(w, path)
+				v, d := classifyWitness(w, o, err)
+				out[k] = res{v, d}
+				if v == "agree" || v == "skip" {
+					break
+				}
+			}
+		}(k)
+	}
+	wg.Wait()
+	for k, w := range wits {
+		switch out[k].verdict {
+		case "skip":
+		case "agree":
+			ws.run++
+			ws.agree++
+		default:
+			ws.run++
+			m := fmt.Sprintf("%s%v: witness of a completed symbolic path (inputs %s) behaves differently in the native build: %s", w.Harness, w.Args, shortInputs(w), out[k].detail)
+			if w.Threads > 1 {
+				ws.notes = append(ws.notes, m)
+			} else {
+				// keep the file for inspection
+				keep := filepath.Join(verifRoot(), "replays", prop)
+				os.MkdirAll(keep, 0o755)
+				kp := filepath.Join(keep, fmt.Sprintf("witness_%s_%s.json", w.Harness, shortHash(fmt.Sprint(w.Args, w.Inputs))))
+				b, _ := json.MarshalIndent(w, "", " ")
+				os.WriteFile(kp, b, 0o644)
+				ws.divergent = append(ws.divergent, m+" — engine, stub or harness defect (replay file "+kp+")")
+			}
+		}
+	}
+	return ws
+}
+
+func shortInputs(w violation) string {
+	var sb strings.Builder
+	n := 0
+	for _, in := range w.Inputs {
+		if in.Val != 0 {
+			if n >= 8 {
+				sb.WriteString(" …")
+				break
+			}
+			fmt.Fprintf(&sb, " %s=%d", in.Name, in.Val)
+			n++
+		}
+	}
+	if n == 0 {
+		return "all zero"
+	}
+	return strings.TrimSpace(sb.String())
+}
+
+func classifyWitness(w violation, out string, err error) (string, string) {
+	if err != nil {
+		return "skip", "replay build: " + firstLine(err.Error())
+	}
+	outcome, covers := "", ""
+	hasCov := false
+	for _, l := range strings.Split(out, "\n") {
+		if strings.HasPrefix(l, "VXOUTCOME: ") {
+			outcome = strings.TrimPrefix(l, "VXOUTCOME: ")
+		}
+		if strings.HasPrefix(l, "VXCOVERS:") {
+			covers = strings.TrimSpace(strings.TrimPrefix(l, "VXCOVERS:"))
+			hasCov = true
+		}
+	}
+	if outcome != "OK" {
+		if outcome == "" {
+			return "diverge", "no outcome: " + firstLine(tail(out, 300))
+		}
+		return "diverge", "native outcome " + firstLine(outcome) + " (predicted OK)"
+	}
+	if hasCov {
+		want := strings.Join(w.Covers, ",")
+		if covers != want {
+			return "diverge", "cover labels native [" + covers + "] predicted [" + want + "]"
+		}
+	}
+	return "agree", ""
 }
